@@ -178,6 +178,9 @@ func (g *G) Digits() string {
 	}
 	if g.R.Chance(1, 8) {
 		s = strings.Repeat("0", g.R.Range(1, 12)) + s
+	} else if g.R.Chance(1, 20) {
+		// long zero padding: many digits, small value
+		s = strings.Repeat("0", g.R.Range(12, 34)) + strconv.Itoa(g.R.Intn(100000))
 	}
 	if len(s) > 40 {
 		s = s[:40]
